@@ -3,6 +3,7 @@ package main
 // math/big.Int in Int mode: the cell holds an unbounded Int term.
 
 import (
+	"fmt"
 	"math/big"
 
 	"golang.org/x/tools/go/ssa"
@@ -12,7 +13,9 @@ type ITerm = Term
 
 func (r *Run) bigTerm(x *BigV) *Term {
 	if x.sym != nil {
-		return x.sym
+		// registers may hold terms built before later path facts (x == 0 ...): use the normalised term so
+		// that interval refinements recorded for it apply
+		return r.ts.norm(x.sym)
 	}
 	if x.bsym != nil {
 		panic(unsupported("byte-vector big.Int mixed with Int mode"))
@@ -63,7 +66,8 @@ func (r *Run) intBig(fn *ssa.Function, a []Value) (Value, bool) {
 			if yt.bk.Sign() == 0 {
 				r.goPanic("division by zero")
 			}
-			if yt.bk.Sign() < 0 || xt.lo.Sign() < 0 {
+			// Div/Mod are Euclidean (floor for a positive divisor); Quo/Rem truncate and are only taken for x >= 0
+			if yt.bk.Sign() < 0 || (xt.lo.Sign() < 0 && (name == "Quo" || name == "Rem")) {
 				panic(unsupported("big.Int division with possibly negative operands at " + r.curPos()))
 			}
 			if name == "Div" || name == "Quo" {
@@ -80,8 +84,8 @@ func (r *Run) intBig(fn *ssa.Function, a []Value) (Value, bool) {
 			return nil, false
 		}
 		xt, yt := r.bigTerm(x), r.bigTerm(y)
-		if !yt.IsConst() || yt.bk.Sign() <= 0 || xt.lo.Sign() < 0 {
-			panic(unsupported("big.Int.DivMod with symbolic/negative divisor at " + r.curPos()))
+		if !yt.IsConst() || yt.bk.Sign() <= 0 {
+			panic(unsupported(fmt.Sprintf("big.Int.DivMod with symbolic/negative operands (x in %s..%s, y=%s) at %s", xt.lo, xt.hi, yt.String(), r.curPos())))
 		}
 		q, m := ts.IDivC(xt, yt.bk), ts.IModC(xt, yt.bk)
 		r.setBig(r.bigCell(a[0], true), q)
